@@ -150,6 +150,51 @@ def sl_cfg(invariants=(), properties=(), spec='Spec', nw=1, nr=1, maxops=2, maxc
                         next_='Next' if init else None, **kw)
 
 
+
+def singlelane_conformance(ck, n_scen, reps, thorough, salt=71):
+    """code -> spec leg of SingleLane: the real class, one writer + one reader under detsched (line mode), traces validated by TLC"""
+    import random
+    from mbt.bind import singlelane as SB
+    rnd = random.Random(ck.seed * 1000003 + salt)
+    scs = SB.gen_scenarios(rnd, n_scen)
+    items, k = [], 0
+    for sc in scs:
+        for j in range(reps):
+            k += 1
+            items.append({'id': k, 'sc': sc, 'seed': rnd.randrange(1 << 30), 'strategy': ['random', 'pct'][j % 2]})
+    # stateless exhaustive exploration (preemption-bounded) of the schedule tree of the REAL code for tiny programs
+    tiny = [(1, ['block', 'block'], ['block', 'block']), (1, ['block', 'timed'], ['timed', 'block']),
+            (1, ['nowait', 'block'], ['block', 'nowait']), (2, ['block', 'block', 'block'], ['block', 'block', 'block'])]
+    if thorough:
+        tiny += [(c, [a, b], [x, y]) for c in (1, 2) for a in SB.MODES for b in SB.MODES for x in ('block', 'timed')
+                 for y in ('block', 'nowait')]
+    for j, (cap, wo, ro) in enumerate(tiny):
+        for line in ((False, True) if thorough else ((True,) if j in (0, 3) else (False,))):
+            k += 1
+            items.append({'id': k, 'sc': {'cap': cap, 'ops': [wo, ro], 'tmo': [0.01, 0.02], 'line': line}, 'strategy': 'dfs',
+                          'bound': 3 if thorough else 2, 'max_runs': 20000 if thorough else 3000})
+    out = ck.run_binder('singlelane', items, timeout=2400)
+    ck.evaluations += int(out.get('n_exec', 0))
+    for h in out.get('crashes', []):
+        ck.violation({'leg': 'L3', 'kind': 'crash-or-livelock', 'status': h['status'], 'detail': h.get('detail'),
+                      'waitmap': h.get('waitmap'), 'exc': h.get('exc'), 'thread_errors': h.get('thread_errors'),
+                      'item': {'sc': h['sc'], 'seed': h['seed'], 'strategy': h['strategy']}, 'events': h['ev'][-80:]},
+                     sig={'leg': 'L3', 'kind': 'crash', 'status': h['status']})
+    ck.validate('SingleLane: one writer, one reader under detsched (line mode on _queues.py); random / PCT / exhaustive DFS',
+                'SingleLaneTrace', sl_cfg(spec='TraceSpec', constraint='Progress', postcondition='Report', deadlock=False),
+                out.get('traces', []))
+    ck.legs[-1]['dfs_runs'] = int(out.get('dfs_runs', 0))
+
+
+def singlelane_component(ck):
+    """SingleLane as a COMPONENT of the stream / batching properties (C01 C05 C08 C09): their specifications use an atomic bounded
+    FIFO; this leg checks that the real class refines it (design: SingleLane.tla incl. AtomicQ; code: traces of the real class)."""
+    thorough = ck.tier == 'thorough'
+    ck.l1('SingleLane (component)/mutex + two conditions refine the atomic bounded FIFO', 'SingleLane',
+          sl_cfg(SL_INV, ['AtomicQ'], maxops=2), may_skip=('Next', 'Idle'))
+    singlelane_conformance(ck, 400 if thorough else 50, 4, False, salt=73)
+
+
 def x04(ck, replay=None):
     import random
     from mbt.bind import singlelane as SB
@@ -165,35 +210,7 @@ def x04(ck, replay=None):
                  'SingleLane', sl_cfg(['Bound'], nw=2, init='InitTwoWriters'), 'invariant', 'Bound')
     for goal in ('Trap_SwallowedNotify', 'Trap_FailWithRoom', 'Trap_WriterWoken', 'Trap_ReaderWoken'):
         ck.trap(goal, 'SingleLane', sl_cfg([goal], maxops=2 if goal != 'Trap_FailWithRoom' else 3, maxcap=1))
-    rnd = random.Random(ck.seed * 1000003 + 71)
-    scs = SB.gen_scenarios(rnd, 1200 if thorough else 150)
-    items, k = [], 0
-    for sc in scs:
-        for j in range(8 if thorough else 4):
-            k += 1
-            items.append({'id': k, 'sc': sc, 'seed': rnd.randrange(1 << 30), 'strategy': ['random', 'pct'][j % 2]})
-    # stateless exhaustive exploration (preemption-bounded) of the schedule tree of the REAL code for tiny programs
-    tiny = [(1, ['block', 'block'], ['block', 'block']), (1, ['block', 'timed'], ['timed', 'block']),
-            (1, ['nowait', 'block'], ['block', 'nowait']), (2, ['block', 'block', 'block'], ['block', 'block', 'block'])]
-    if thorough:
-        tiny += [(c, [a, b], [x, y]) for c in (1, 2) for a in SB.MODES for b in SB.MODES for x in ('block', 'timed')
-                 for y in ('block', 'nowait')]
-    for cap, wo, ro in tiny:
-        for line in ((False, True) if thorough else (False,)):
-            k += 1
-            items.append({'id': k, 'sc': {'cap': cap, 'ops': [wo, ro], 'tmo': [0.01, 0.02], 'line': line}, 'strategy': 'dfs',
-                          'bound': 3 if thorough else 2, 'max_runs': 20000 if thorough else 3000})
-    out = ck.run_binder('singlelane', items, timeout=2400)
-    ck.evaluations += int(out.get('n_exec', 0))
-    for h in out.get('crashes', []):
-        ck.violation({'leg': 'L3', 'kind': 'crash-or-livelock', 'status': h['status'], 'detail': h.get('detail'),
-                      'waitmap': h.get('waitmap'), 'exc': h.get('exc'), 'thread_errors': h.get('thread_errors'),
-                      'item': {'sc': h['sc'], 'seed': h['seed'], 'strategy': h['strategy']}, 'events': h['ev'][-80:]},
-                     sig={'leg': 'L3', 'kind': 'crash', 'status': h['status']})
-    ck.validate('SingleLane: one writer, one reader under detsched (line mode on _queues.py); random / PCT / exhaustive DFS',
-                'SingleLaneTrace', sl_cfg(spec='TraceSpec', constraint='Progress', postcondition='Report', deadlock=False),
-                out.get('traces', []))
-    ck.legs[-1]['dfs_runs'] = int(out.get('dfs_runs', 0))
+    singlelane_conformance(ck, 1200 if thorough else 150, 8 if thorough else 4, thorough)
     ck.assumptions += ['one writer thread and one reader thread (what the class is documented for, and how the library uses it); '
                        'line mode preempts before every source line of _queues.py, inside a line only at lock operations']
     ck.finish_rc = ck.finish(rule='capacity 0..3 x programs of 1..5 attempts per side (block / timed / nowait) x schedules; every '
